@@ -31,16 +31,17 @@ type RouteX struct {
 }
 
 type Cfg struct {
-	Routing  routing.Config
-	Enc      bool
-	Recover  bool
-	RScript  []Act // nil = default recover handler
-	HasRS    bool
-	Plain    []Act
-	CF       []Filter
-	SvcF     map[int][]Filter
-	RouteX   map[int]*RouteX
-	Provider string // "pool" | "bounded0" | "bounded1" | "bounded2"
+	Routing   routing.Config
+	Enc       bool
+	Recover   bool
+	RScript   []Act // nil = default recover handler
+	HasRS     bool
+	Plain     []Act
+	CF        []Filter
+	SvcF      map[int][]Filter
+	RouteX    map[int]*RouteX
+	Provider  string // "pool" | "bounded0" | "bounded1" | "bounded2"
+	CustomErr bool   // a ServiceErrorHandler of the harness writes "E<code>" instead of the library's message text
 }
 
 type SReq struct {
@@ -110,7 +111,7 @@ func (c *Cfg) Sx() *sx.Node {
 			routes.List = append(routes.List, n)
 		}
 	}
-	return sx.K("scfg", c.Routing.Sx(), sx.B(c.Enc), sx.B(c.Recover), rs, actsSx("plain", c.Plain), cf, svcs, routes)
+	return sx.K("scfg", c.Routing.Sx(), sx.B(c.Enc), sx.B(c.Recover), rs, actsSx("plain", c.Plain), cf, svcs, routes, sx.B(c.CustomErr))
 }
 
 func (r SReq) Sx() *sx.Node {
